@@ -1,6 +1,7 @@
 """Property id -> check function."""
 import json
 
+import chunk
 import conn
 import fault
 import ketama
@@ -12,6 +13,8 @@ CHECKS = {
     "C01": orca.check,
     "C02": orca.check,
     "C03": lin.check_c03,
+    "C04": chunk.check_c04,
+    "C05": chunk.check_c05,
     "C08": conn.check,
     "C09": orca.check,
     "C10": fault.check,
